@@ -296,7 +296,79 @@ def observe(cfg):
     except Exception as ex:     # noqa
         pr["nest_raised"] = type(ex).__name__
     obs["primal"] = pr
+    if cfg.get("second") and not kink and cfg["kind"] == "rr":
+        obs["second"] = second_order(f, xin, y0)
     return obs
+
+
+def second_order(f, x, y0):
+    """Hessian-vector products of phi = <w, f> by reverse-over-reverse, forward-over-reverse, reverse-over-forward and
+    forward-over-forward, compared with each other (1e-9), with the symmetry <u, H v> = <v, H u>, and with a central
+    difference of autograd's own first-order gradient (whose exactness is C01's business)."""
+    out = {"modes": {}, "nbad": 0, "pairs": [], "checked": False, "sym_bad": 0, "num_bad": 0, "num_checked": False}
+    m = onp.size(y0)
+    w = onp.cos(onp.arange(m) * 0.7 + 0.3).reshape(onp.shape(y0)) + 1.5
+    if onp.iscomplexobj(y0):
+        phi = lambda z: np.sum(np.real(w * f(z))) + 0.5 * np.sum(np.imag(w * f(z)))
+    else:
+        phi = lambda z: np.sum(w * f(z))
+    n = onp.size(x)
+    rs = onp.random.RandomState(5)
+    v = rs.uniform(-1, 1, onp.shape(x)) if onp.ndim(x) else float(rs.uniform(-1, 1))
+    u = rs.uniform(-1, 1, onp.shape(x)) if onp.ndim(x) else float(rs.uniform(-1, 1))
+    g1 = grad(phi)
+    res = {}
+
+    def attempt(name, thunk):
+        try:
+            r = thunk()
+            if has_box(r):
+                out["modes"][name] = "box"
+                return
+            res[name] = onp.asarray(r, dtype=float)
+            out["modes"][name] = "ok"
+        except Exception as ex:     # noqa
+            out["modes"][name] = "raised:" + type(ex).__name__
+    attempt("rr", lambda: grad(lambda z: np.sum(g1(z) * v))(x))
+    attempt("fr", lambda: make_jvp(g1)(x)(v)[1])
+    attempt("rf", lambda: grad(lambda z: make_jvp(phi)(z)(v)[1])(x))
+    attempt("ff_u", lambda: make_jvp(lambda z: make_jvp(phi)(z)(v)[1])(x)(u)[1])
+    attempt("rr_u", lambda: grad(lambda z: np.sum(g1(z) * u))(x))
+    names = [k for k in ("rr", "fr", "rf") if k in res]
+    out["checked"] = len(names) >= 2 or ("ff_u" in res and names)
+    for i in range(len(names)):
+        for j in range(i + 1, len(names)):
+            a, b = res[names[i]], res[names[j]]
+            if a.shape != b.shape:
+                out["nbad"] += 1
+                out["pairs"].append(names[i] + "/" + names[j] + ":shape")
+                continue
+            bad = int(onp.sum(onp.abs(a - b) / onp.maximum(1.0, onp.maximum(onp.abs(a), onp.abs(b))) > 1e-9))
+            if bad:
+                out["nbad"] += bad
+                out["pairs"].append(names[i] + "/" + names[j])
+    if "ff_u" in res and names:
+        hv = res[names[0]]
+        lhs, rhs = float(res["ff_u"]), float(onp.sum(hv * u))
+        if abs(lhs - rhs) / max(1.0, abs(rhs)) > 1e-9:
+            out["nbad"] += 1
+            out["pairs"].append("ff/" + names[0])
+    if "rr" in res and "rr_u" in res:
+        a, b = float(onp.sum(res["rr"] * u)), float(onp.sum(res["rr_u"] * v))
+        if abs(a - b) / max(1.0, abs(a), abs(b)) > 1e-9:
+            out["sym_bad"] = 1
+    if names:
+        try:
+            h1, h2 = 1e-3, 5e-4
+            st = lambda h: (-onp.asarray(g1(x + 2 * h * v)) + 8 * onp.asarray(g1(x + h * v)) - 8 * onp.asarray(g1(x - h * v)) + onp.asarray(g1(x - 2 * h * v))) / (12 * h)
+            n1, n2 = st(h1), st(h2)
+            if onp.all(onp.isfinite(n1)) and onp.max(onp.abs(n1 - n2) / onp.maximum(1.0, onp.abs(n1)), initial=0) < 1e-7:
+                out["num_checked"] = True
+                hv = res[names[0]]
+                out["num_bad"] = int(onp.sum(onp.abs(hv - n2) / onp.maximum(1.0, onp.abs(n2)) > 2e-6)) if hv.shape == n2.shape else 1
+        except Exception:
+            pass
+    return out
 
 
 def main():
